@@ -37,6 +37,8 @@ ASSUMPTIONS = [
 ]
 REQUIRED = [
     "server_receiver_cases",
+    "endpoint_polling_cases",
+    "endpoint_polling_expired_waits_between_pieces",
     "server_receiver_timeouts_between_pieces",
     "held_reached_limit_without_error",
     "limit_error_observed",
@@ -493,6 +495,102 @@ def server_receiver_case(ctx, rng: random.Random) -> str | None:
     return None
 
 
+def endpoint_polling_case(ctx, rng: random.Random) -> str | None:
+    """the bound as a client that polls applies it: recv_packet() of the asynchronous endpoint under a deadline (move_on_after /
+    timeout scope / task cancellation), repeated after every expiry, while the peer drips an endless unterminated line with pauses
+    shorter and longer than the deadline. An interrupted wait must not reset the accounting: the limit error is raised before more
+    than limit + one read + separator unterminated bytes were taken from the transport"""
+    import asyncio
+
+    from easynetwork.exceptions import StreamProtocolParseError
+    from easynetwork.lowlevel.api_async.backend._asyncio.backend import AsyncIOBackend
+    from easynetwork.lowlevel.api_async.endpoints.stream import AsyncStreamEndpoint
+    from easynetwork.protocol import BufferedStreamProtocol, StreamProtocol
+
+    from vlib import memtransport, vloop
+
+    L = rng.choice([32, 64, 100, 255])
+    max_recv = rng.choice([8, 16, 64])
+    buffered = rng.random() < 0.5
+    T = rng.choice([0.25, 0.5])
+    piece = rng.choice([5, 8, 20])
+    how = rng.choice(["move_on_after", "timeout", "task-cancel"])
+    total = 4 * L + 4 * max_recv
+    script = []
+    fed = 0
+    while fed < total:
+        script.append((rng.choice([0, 0.1, 2 * T, 3 * T]), b"u" * piece))
+        fed += piece
+    st = {"limit_at": None, "timeouts": 0, "fed": 0, "other": None}
+
+    async def main(loop):
+        backend = AsyncIOBackend()
+        ser = StringLineSerializer(limit=L)
+        m = memtransport.MemStreamTransport(backend)
+        ep = AsyncStreamEndpoint(m, BufferedStreamProtocol(ser) if buffered else StreamProtocol(ser), max_recv_size=max_recv)
+        feed = asyncio.ensure_future(memtransport.feeder(m.incoming, script))
+
+        def taken() -> int:
+            return sum(e[1] for e in m.events if e[0] == "recv")
+
+        for _ in range(10 * len(script)):
+            if feed.done() and taken() >= fed:
+                break
+            try:
+                if how == "move_on_after":
+                    with backend.move_on_after(T) as scope:
+                        await ep.recv_packet()
+                    if scope.cancelled_caught():
+                        st["timeouts"] += 1
+                        continue
+                elif how == "timeout":
+                    try:
+                        with backend.timeout(T):
+                            await ep.recv_packet()
+                    except TimeoutError:
+                        st["timeouts"] += 1
+                        continue
+                else:
+                    t = asyncio.ensure_future(ep.recv_packet())
+                    done, _p = await asyncio.wait([t], timeout=T)
+                    if not done:
+                        t.cancel()
+                        await asyncio.gather(t, return_exceptions=True)
+                        if t.cancelled():
+                            st["timeouts"] += 1
+                            continue
+                    await t
+                st["other"] = "a packet was returned although no separator was ever sent"
+                break
+            except StreamProtocolParseError as exc:
+                if "LimitOverrunError" in type(exc.error).__name__:
+                    st["limit_at"] = taken()
+                else:
+                    st["other"] = repr(exc)
+                break
+        st["fed"] = taken()
+        feed.cancel()
+        await asyncio.gather(feed, return_exceptions=True)
+        await ep.aclose()
+
+    try:
+        vloop.run(main)
+    except vloop.Quiescent as exc:
+        return f"deadlock: {exc}"
+    ctx.count("endpoint_polling_cases")
+    if st["timeouts"]:
+        ctx.count("endpoint_polling_expired_waits_between_pieces", st["timeouts"])
+    bound = L + max_recv + 2
+    where = f"asynchronous endpoint polled with {how}({T}) ({'buffered' if buffered else 'copy'} path, limit {L}, max_recv_size {max_recv}, pieces of {piece} bytes, {st['timeouts']} expired waits in between)"
+    if st["other"]:
+        return f"{where}: {st['other']}"
+    if st["limit_at"] is None:
+        return f"{where}: {st['fed']} unterminated bytes were received and no limit error was raised (bound {bound})"
+    if st["limit_at"] > bound:
+        return f"{where}: the limit error came after {st['limit_at']} unterminated bytes (bound {bound})"
+    return None
+
+
 def plan(tier: str, seed: int) -> list[dict]:
     names = [s.name for s in specs()]
     shards = []
@@ -553,6 +651,10 @@ def run_shard(params: dict, ctx) -> None:
         ctx.case(True, "server-receiver", params["seed"], i)
         if why:
             ctx.violation("unbounded:server-receiver", why, {"spec": "server-receiver", "seed": params["seed"], "i": i})
+        why = endpoint_polling_case(ctx, rng)
+        ctx.case(True, "endpoint-polling", params["seed"], i)
+        if why:
+            ctx.violation("unbounded:endpoint-polling", why, {"spec": "server-receiver", "seed": params["seed"], "i": i})
     ctx.sample({"spec": spec.name, "limit": params["limits"][0], "payload_lengths": "0..limit+sep+read", "reads": "1..limit+4", "paths": ["copy", "buffered"]})
 
 
